@@ -13,12 +13,15 @@ Crc/CrcProofs.vos Crc/CrcProofs.vok Crc/CrcProofs.required_vos: Crc/CrcProofs.v 
 Crc/CrcSpec.vo Crc/CrcSpec.glob Crc/CrcSpec.v.beautified Crc/CrcSpec.required_vo: Crc/CrcSpec.v Base/Bytes.vo
 Crc/CrcSpec.vio: Crc/CrcSpec.v Base/Bytes.vio
 Crc/CrcSpec.vos Crc/CrcSpec.vok Crc/CrcSpec.required_vos: Crc/CrcSpec.v Base/Bytes.vos
-Extract.vo Extract.glob Extract.v.beautified Extract.required_vo: Extract.v Base/Bytes.vo Crc/CrcSpec.vo Crc/CrcModel.vo Link/LLHeader.vo Link/LinkSpec.vo Link/Frame.vo Link/Frag.vo Link/Resync.vo Link/Rx.vo Link/RxSpec.vo
-Extract.vio: Extract.v Base/Bytes.vio Crc/CrcSpec.vio Crc/CrcModel.vio Link/LLHeader.vio Link/LinkSpec.vio Link/Frame.vio Link/Frag.vio Link/Resync.vio Link/Rx.vio Link/RxSpec.vio
-Extract.vos Extract.vok Extract.required_vos: Extract.v Base/Bytes.vos Crc/CrcSpec.vos Crc/CrcModel.vos Link/LLHeader.vos Link/LinkSpec.vos Link/Frame.vos Link/Frag.vos Link/Resync.vos Link/Rx.vos Link/RxSpec.vos
+Extract.vo Extract.glob Extract.v.beautified Extract.required_vo: Extract.v Base/Bytes.vo Crc/CrcSpec.vo Crc/CrcModel.vo Link/LLHeader.vo Link/LinkSpec.vo Link/Frame.vo Link/Frag.vo Link/Resync.vo Link/Rx.vo Link/RxSpec.vo Link/TxSeq.vo
+Extract.vio: Extract.v Base/Bytes.vio Crc/CrcSpec.vio Crc/CrcModel.vio Link/LLHeader.vio Link/LinkSpec.vio Link/Frame.vio Link/Frag.vio Link/Resync.vio Link/Rx.vio Link/RxSpec.vio Link/TxSeq.vio
+Extract.vos Extract.vok Extract.required_vos: Extract.v Base/Bytes.vos Crc/CrcSpec.vos Crc/CrcModel.vos Link/LLHeader.vos Link/LinkSpec.vos Link/Frame.vos Link/Frag.vos Link/Resync.vos Link/Rx.vos Link/RxSpec.vos Link/TxSeq.vos
 Link/Frag.vo Link/Frag.glob Link/Frag.v.beautified Link/Frag.required_vo: Link/Frag.v Base/Bytes.vo Base/Bits.vo Crc/CrcModel.vo Link/LLHeader.vo Link/Frame.vo gen/GenConsts.vo
 Link/Frag.vio: Link/Frag.v Base/Bytes.vio Base/Bits.vio Crc/CrcModel.vio Link/LLHeader.vio Link/Frame.vio gen/GenConsts.vio
 Link/Frag.vos Link/Frag.vok Link/Frag.required_vos: Link/Frag.v Base/Bytes.vos Base/Bits.vos Crc/CrcModel.vos Link/LLHeader.vos Link/Frame.vos gen/GenConsts.vos
+Link/FragProofs.vo Link/FragProofs.glob Link/FragProofs.v.beautified Link/FragProofs.required_vo: Link/FragProofs.v Base/Bytes.vo Base/Bits.vo Crc/CrcSpec.vo Crc/CrcModel.vo Crc/CrcProofs.vo Link/LLHeader.vo Link/LinkSpec.vo Link/LinkSpecProofs.vo Link/Frame.vo Link/Frag.vo Link/FrameProofs.vo gen/GenConsts.vo
+Link/FragProofs.vio: Link/FragProofs.v Base/Bytes.vio Base/Bits.vio Crc/CrcSpec.vio Crc/CrcModel.vio Crc/CrcProofs.vio Link/LLHeader.vio Link/LinkSpec.vio Link/LinkSpecProofs.vio Link/Frame.vio Link/Frag.vio Link/FrameProofs.vio gen/GenConsts.vio
+Link/FragProofs.vos Link/FragProofs.vok Link/FragProofs.required_vos: Link/FragProofs.v Base/Bytes.vos Base/Bits.vos Crc/CrcSpec.vos Crc/CrcModel.vos Crc/CrcProofs.vos Link/LLHeader.vos Link/LinkSpec.vos Link/LinkSpecProofs.vos Link/Frame.vos Link/Frag.vos Link/FrameProofs.vos gen/GenConsts.vos
 Link/Frame.vo Link/Frame.glob Link/Frame.v.beautified Link/Frame.required_vo: Link/Frame.v Base/Bytes.vo Base/Bits.vo Crc/CrcModel.vo Link/LLHeader.vo gen/GenConsts.vo
 Link/Frame.vio: Link/Frame.v Base/Bytes.vio Base/Bits.vio Crc/CrcModel.vio Link/LLHeader.vio gen/GenConsts.vio
 Link/Frame.vos Link/Frame.vok Link/Frame.required_vos: Link/Frame.v Base/Bytes.vos Base/Bits.vos Crc/CrcModel.vos Link/LLHeader.vos gen/GenConsts.vos
@@ -49,6 +52,12 @@ Link/RxProofs.vos Link/RxProofs.vok Link/RxProofs.required_vos: Link/RxProofs.v 
 Link/RxSpec.vo Link/RxSpec.glob Link/RxSpec.v.beautified Link/RxSpec.required_vo: Link/RxSpec.v Base/Bytes.vo Crc/CrcSpec.vo Link/LinkSpec.vo
 Link/RxSpec.vio: Link/RxSpec.v Base/Bytes.vio Crc/CrcSpec.vio Link/LinkSpec.vio
 Link/RxSpec.vos Link/RxSpec.vok Link/RxSpec.required_vos: Link/RxSpec.v Base/Bytes.vos Crc/CrcSpec.vos Link/LinkSpec.vos
+Link/TxSeq.vo Link/TxSeq.glob Link/TxSeq.v.beautified Link/TxSeq.required_vo: Link/TxSeq.v Base/Bytes.vo Link/LinkSpec.vo Link/Frame.vo Link/Rx.vo gen/GenConsts.vo
+Link/TxSeq.vio: Link/TxSeq.v Base/Bytes.vio Link/LinkSpec.vio Link/Frame.vio Link/Rx.vio gen/GenConsts.vio
+Link/TxSeq.vos Link/TxSeq.vok Link/TxSeq.required_vos: Link/TxSeq.v Base/Bytes.vos Link/LinkSpec.vos Link/Frame.vos Link/Rx.vos gen/GenConsts.vos
+Link/TxSeqProofs.vo Link/TxSeqProofs.glob Link/TxSeqProofs.v.beautified Link/TxSeqProofs.required_vo: Link/TxSeqProofs.v Base/Bytes.vo Link/LinkSpec.vo Link/LinkSpecProofs.vo Link/Frame.vo Link/Rx.vo Link/TxSeq.vo Link/FrameProofs.vo gen/GenConsts.vo
+Link/TxSeqProofs.vio: Link/TxSeqProofs.v Base/Bytes.vio Link/LinkSpec.vio Link/LinkSpecProofs.vio Link/Frame.vio Link/Rx.vio Link/TxSeq.vio Link/FrameProofs.vio gen/GenConsts.vio
+Link/TxSeqProofs.vos Link/TxSeqProofs.vok Link/TxSeqProofs.required_vos: Link/TxSeqProofs.v Base/Bytes.vos Link/LinkSpec.vos Link/LinkSpecProofs.vos Link/Frame.vos Link/Rx.vos Link/TxSeq.vos Link/FrameProofs.vos gen/GenConsts.vos
 gen/GenBitfields.vo gen/GenBitfields.glob gen/GenBitfields.v.beautified gen/GenBitfields.required_vo: gen/GenBitfields.v 
 gen/GenBitfields.vio: gen/GenBitfields.v 
 gen/GenBitfields.vos gen/GenBitfields.vok gen/GenBitfields.required_vos: gen/GenBitfields.v 
@@ -73,6 +82,9 @@ props/Props_C05.vos props/Props_C05.vok props/Props_C05.required_vos: props/Prop
 props/Props_C06.vo props/Props_C06.glob props/Props_C06.v.beautified props/Props_C06.required_vo: props/Props_C06.v Base/Bytes.vo Link/LinkSpec.vo Link/LinkSpecProofs.vo Link/Frame.vo Link/Rx.vo Link/RxSpec.vo Link/RxProofs.vo Link/FrameProofs.vo
 props/Props_C06.vio: props/Props_C06.v Base/Bytes.vio Link/LinkSpec.vio Link/LinkSpecProofs.vio Link/Frame.vio Link/Rx.vio Link/RxSpec.vio Link/RxProofs.vio Link/FrameProofs.vio
 props/Props_C06.vos props/Props_C06.vok props/Props_C06.required_vos: props/Props_C06.v Base/Bytes.vos Link/LinkSpec.vos Link/LinkSpecProofs.vos Link/Frame.vos Link/Rx.vos Link/RxSpec.vos Link/RxProofs.vos Link/FrameProofs.vos
-props/Props_C09.vo props/Props_C09.glob props/Props_C09.v.beautified props/Props_C09.required_vo: props/Props_C09.v Base/Bytes.vo Link/Frame.vo Link/Frag.vo
-props/Props_C09.vio: props/Props_C09.v Base/Bytes.vio Link/Frame.vio Link/Frag.vio
-props/Props_C09.vos props/Props_C09.vok props/Props_C09.required_vos: props/Props_C09.v Base/Bytes.vos Link/Frame.vos Link/Frag.vos
+props/Props_C08.vo props/Props_C08.glob props/Props_C08.v.beautified props/Props_C08.required_vo: props/Props_C08.v Base/Bytes.vo Link/LinkSpec.vo Link/LinkSpecProofs.vo Link/Frame.vo Link/Rx.vo Link/TxSeq.vo Link/FrameProofs.vo Link/TxSeqProofs.vo gen/GenConsts.vo
+props/Props_C08.vio: props/Props_C08.v Base/Bytes.vio Link/LinkSpec.vio Link/LinkSpecProofs.vio Link/Frame.vio Link/Rx.vio Link/TxSeq.vio Link/FrameProofs.vio Link/TxSeqProofs.vio gen/GenConsts.vio
+props/Props_C08.vos props/Props_C08.vok props/Props_C08.required_vos: props/Props_C08.v Base/Bytes.vos Link/LinkSpec.vos Link/LinkSpecProofs.vos Link/Frame.vos Link/Rx.vos Link/TxSeq.vos Link/FrameProofs.vos Link/TxSeqProofs.vos gen/GenConsts.vos
+props/Props_C09.vo props/Props_C09.glob props/Props_C09.v.beautified props/Props_C09.required_vo: props/Props_C09.v Base/Bytes.vo Link/LinkSpec.vo Link/LinkSpecProofs.vo Link/Frame.vo Link/Frag.vo Link/FrameProofs.vo Link/FragProofs.vo gen/GenConsts.vo
+props/Props_C09.vio: props/Props_C09.v Base/Bytes.vio Link/LinkSpec.vio Link/LinkSpecProofs.vio Link/Frame.vio Link/Frag.vio Link/FrameProofs.vio Link/FragProofs.vio gen/GenConsts.vio
+props/Props_C09.vos props/Props_C09.vok props/Props_C09.required_vos: props/Props_C09.v Base/Bytes.vos Link/LinkSpec.vos Link/LinkSpecProofs.vos Link/Frame.vos Link/Frag.vos Link/FrameProofs.vos Link/FragProofs.vos gen/GenConsts.vos
